@@ -80,3 +80,100 @@ Theorem C20_e2e_done_position_sync : forall HO, hash_ok HO ->
     dec_next HO st = None /\ d_enc HO st = rest.
 Proof. exact e2e_done_position_sync. Qed.
 Print Assumptions C20_e2e_done_position_sync.
+
+(* ======== Gap audit: accessors and the reader position over ANY sequence of calls of next, with what each
+   call returned (errors and calls after errors included) ========
+   Proofs in Proofs/GapPolls.v, GapDrivers.v, GapStatements.v, GapNonvac.v. *)
+From BaoV Require Import Spec.HashAssm.
+From BaoV Require Proofs.PlanRun.
+From BaoV Require Import Proofs.GapPolls Proofs.GapDrivers Proofs.GapStatements Proofs.GapNonvac.
+
+(* dec_polls / rd_polls (C01_polls_def): the states of dec_reach / rd_reach together with the results of the calls *)
+Theorem C20_polls_reach : forall HO (st0 st : dstate HO) (r0 r : rstate HO),
+  (dec_reach HO st0 st <-> exists tr, dec_polls HO st0 tr st) /\
+  (rd_reach HO r0 r <-> exists tr, rd_polls HO r0 tr r).
+Proof. exact polls_reach. Qed.
+Print Assumptions C20_polls_reach.
+
+(* after any calls of next, whatever they returned: the geometry and the hash reported are those given at
+   construction, and finish() hands back a suffix of the stream given at construction *)
+Theorem C20_accessors_over_polls : forall HO root t (enc : bytes HO) q tr,
+  (forall st, dec_polls HO (dec_new HO root t enc q) tr st -> dec_tree HO st = t) /\
+  (forall st, rd_polls HO (rd_new HO root q t enc) tr st ->
+     rd_tree HO st = t /\ rd_hash HO st = Some root /\ exists pre, enc = pre ++ rd_finish HO st).
+Proof. exact accessors_over_polls. Qed.
+Print Assumptions C20_accessors_over_polls.
+
+(* plan_bytes plan: the bytes of the plan items (64 per parent, the leaf size per leaf) *)
+Theorem C20_plan_bytes_def :
+  plan_bytes [] = 0%nat /\
+  (forall n ir lf rt rs p, plan_bytes (CParent n ir lf rt rs :: p) = (64 + plan_bytes p)%nat) /\
+  (forall s z ir rs p, plan_bytes (CLeaf s z ir rs :: p) = (N.to_nat z + plan_bytes p)%nat).
+Proof. exact plan_bytes_def. Qed.
+Print Assumptions C20_plan_bytes_def.
+
+(* the reader of the fsm decoder after ANY calls of next: always a suffix of the stream, and the reader handed back
+   by a final next() is the one finish() hands back; as long as no call reported "not found" (hash mismatches and
+   the calls after them included) it stands exactly after the bytes of the plan items polled so far *)
+Theorem C20_reader_position_any : forall HO root q t (stream : bytes HO) tr st,
+  rd_polls HO (rd_new HO root q t stream) tr st ->
+  (exists pre, stream = pre ++ rd_finish HO st) /\
+  (forall reader, rd_next HO st = RDone reader -> reader = rd_finish HO st) /\
+  (Forall (fun r => forall n, r <> Err (DParentNotFound n) /\ r <> Err (DLeafNotFound n)) tr ->
+   exists plan, PlanRun.steps response_next (response_new t (truncate_ranges_owned q (tsize t))) plan (Fsm.r_iter HO st) /\
+     length plan = length tr /\
+     stream = firstn (plan_bytes plan) stream ++ rd_finish HO st /\ (plan_bytes plan <= length stream)%nat).
+Proof. exact position_fsm. Qed.
+Print Assumptions C20_reader_position_any.
+
+Theorem C20_sync_position_any : forall HO root t (stream : bytes HO) q tr st,
+  dec_polls HO (dec_new HO root t stream q) tr st ->
+  (exists pre, stream = pre ++ d_enc HO st) /\
+  (Forall (fun r => forall n, r <> Err (DParentNotFound n) /\ r <> Err (DLeafNotFound n)) tr ->
+   exists plan, PlanRun.steps response_next (response_new t (truncate_ranges q (tsize t))) plan (d_inner HO st) /\
+     length plan = length tr /\
+     stream = firstn (plan_bytes plan) stream ++ d_enc HO st /\ (plan_bytes plan <= length stream)%nat).
+Proof. exact position_sync. Qed.
+Print Assumptions C20_sync_position_any.
+
+(* one call of next, result by result: where the reader stands afterwards (fsm: finish(); sync: the reader field).
+   A parent not-found error of the fsm decoder consumes nothing; a leaf not-found error, and both not-found
+   errors of the sync iterator, drain the reader; every other result consumes exactly the item *)
+Theorem C20_next_position : forall HO (st : rstate HO) st' r, rd_next HO st = RMore st' r ->
+  match r with
+  | Ok it => Fsm.r_enc HO st = item_bytes HO it ++ rd_finish HO st'
+  | Err (DParentNotFound _) => rd_finish HO st' = Fsm.r_enc HO st /\ (blen HO (Fsm.r_enc HO st) < 64)%N
+  | Err (DLeafNotFound _) => rd_finish HO st' = []
+  | Err (DParentHashMismatch _) => exists pair, length pair = 64%nat /\ Fsm.r_enc HO st = pair ++ rd_finish HO st'
+  | Err (DLeafHashMismatch _) => exists d, Fsm.r_enc HO st = d ++ rd_finish HO st'
+  | Err (DIo _) => False
+  | Panic => Fsm.r_stack HO st = []
+  end.
+Proof. exact next_position. Qed.
+Print Assumptions C20_next_position.
+
+Theorem C20_next_position_sync : forall HO (st : dstate HO) st' r, dec_next HO st = Some (r, st') ->
+  match r with
+  | Ok it => d_enc HO st = item_bytes HO it ++ d_enc HO st'
+  | Err (DParentNotFound _) | Err (DLeafNotFound _) => d_enc HO st' = []
+  | Err (DParentHashMismatch _) | Err (DLeafHashMismatch _) => exists d, d_enc HO st = d ++ d_enc HO st'
+  | Err (DIo _) => False
+  | Panic => d_stack HO st = []
+  end.
+Proof. exact next_position_sync. Qed.
+Print Assumptions C20_next_position_sync.
+
+(* a sequence of calls through an error in which every call read its item: the exact-position clause applies *)
+Theorem C20_reader_position_nonvacuous :
+  exists HO, hash_ok HO /\
+  exists root q t (stream : bytes HO) tr st e,
+    rd_polls HO (rd_new HO root q t stream) tr st /\ Forall (read_fully HO) tr /\
+    In (Err e) tr /\ length tr = 3%nat.
+Proof. exact position_nonvacuous. Qed.
+Print Assumptions C20_reader_position_nonvacuous.
+
+(* read_fully r: r is not one of the two not-found errors *)
+Theorem C20_read_fully_def : forall HO (r : res dec_err (item HO)),
+  read_fully HO r <-> (forall n, r <> Err (DParentNotFound n) /\ r <> Err (DLeafNotFound n)).
+Proof. exact read_fully_iff. Qed.
+Print Assumptions C20_read_fully_def.
